@@ -809,6 +809,33 @@ func (fr *Frame) makeSlice(v *ssa.MakeSlice, st *State) {
 	srt := arrSort(es)
 	e.set(st, c, srt, sStore(e.get(st, c, srt), r, "((as const (Array Int "+es+")) "+e.zero(el)+")"))
 	e.lambda = true
+	// elements that are structs with ghost state (e.g. mutexes) start with zero ghost state
+	if _, isSt := el.Underlying().(*types.Struct); isSt {
+		key := typeKey(e.g, el)
+		var gn []string
+		for k := range e.g.specs.Ghosts {
+			gn = append(gn, k)
+		}
+		sort.Strings(gn)
+		for _, k := range gn {
+			g := e.g.specs.Ghosts[k]
+			if g.Type != key {
+				continue
+			}
+			gs := specSort(g.Sort)
+			z := "0"
+			if gs == "Bool" {
+				z = "false"
+			} else if gs != "Int" {
+				continue
+			}
+			comp := "G_" + san(key) + "_" + g.Name
+			cur := e.get(st, comp, "(Array Int "+gs+")")
+			e.ctr++
+			q := fmt.Sprintf("gz!%d", e.ctr)
+			e.assume(st.pc, fmt.Sprintf("(forall ((%s Int)) (! (= (select %s (ep %s %s)) %s) :pattern ((ep %s %s))))", q, cur, r, q, z, r, q))
+		}
+	}
 	fr.bind(v, "(mk-slice "+r+" 0 "+ln.T+" "+cp.T+")")
 	if e.ownerOn() {
 		e.setOwner(st, r, "1")
